@@ -605,7 +605,7 @@ const STEMS: &[&str] = &["alpha", "beta_two", "Gamma", "delta2x", "IoT", "web-ap
 const EXACT: &[&str] = &["API:", "x.", "Q-", "Mixed_Case:", ""];
 const VARIANT_IDENTS: &[&str] = &["ReadData", "Write", "HTTPGet", "idle2", "Delete_All"];
 const UNITS_NUM: &[&str] = &["Count", "Percent", "Byte", "Kilobyte", "Megabyte", "Gigabit", "BitPerSecond", "TerabytePerSecond", "Millisecond"];
-const LONG_EXACT: &str = "ThisIsAVeryLongExactPrefixThatIsMeantToCrossTheConstStringLimit_0123456789_abcdefghij:";
+const LONG_EXACT: &str = "ThisIsAVeryLongExactPrefixThatIsMeantToCrossTheConstStringLimit_0123456789_abcdefghijklmnopqrstuvwxyz_ABCDEFGHIJKLMNOPQRSTUVWXYZ_9876543210";
 
 fn arb_style() -> impl Strategy<Value = Option<Style>> {
     prop_oneof![
@@ -774,9 +774,12 @@ fn resolve_prefix(p: Option<(bool, u8)>, used: &mut Vec<usize>, long: &mut bool)
     used.push(i);
     let stem = STEMS[i];
     if exact {
-        if sel % 7 == 0 && !*long {
+        if sel % 3 == 0 && !*long {
+            // long exact prefixes of varying length so that final names land on both sides of
+            // (and inside any band around) the 100-byte const-concatenation limit
             *long = true;
-            Some(Pfx::Exact(format!("{stem}{LONG_EXACT}")))
+            let keep = 40 + (sel as usize * 7) % (LONG_EXACT.len() - 40);
+            Some(Pfx::Exact(format!("{stem}{}:", &LONG_EXACT[..keep])))
         } else {
             Some(Pfx::Exact(format!("{stem}{}", EXACT[sel as usize % EXACT.len()])))
         }
